@@ -94,3 +94,17 @@ PROPS["C12"] = {
 
 PROPS["C12"]["regress"] = ["int_2p64", "float_path_overflow", "exponent_early_exit", "long_numeric_string"]
 PROPS["C10"]["regress"] = ["hex_colon", "exponent_early_exit", "top_number_blank"]
+
+PROPS["C13"] = {
+    "title": "Typed extraction is exact when it fits and zero otherwise, never undefined",
+    "src": "c13.cpp",
+    "level": "exploration",
+    "technique": "property-based testing against an __int128 / long double reference under UBSan (float-cast-overflow, signed-overflow): strided (quick) or exhaustive (thorough) sweep of all 2^32 values of each 32-bit storage kind x 13 target types, boundary enumeration for 64-bit kinds, generated numeric strings, copyArray into exactly sized heap blocks",
+    "rule": "case = one stored number (int32/uint32/float/int64/uint64/double at powers of two +-4, type limits +-halves, NaN/Inf/denormals, random) or one numeric string (linked and copied; integers, decimals, up to 1200 digits, tolerated and non-numeric spellings) or one copyArray call (1-D, 2-D, char[N] with shorter/longer sources); every case is extracted as the ten integer types, float, double and bool, with is<T>() and operator| ; non-trivial = every stored-number case (all are compared with the reference on 13 targets), distinct by rendering; sweep cases are distinct by construction",
+    "level_text": "Exploration with a reference computed in wider arithmetic; UBSan turns an out-of-range float-to-integer cast inside the library into a failure. The thorough tier enumerates all 2^32 values of the three 32-bit storage kinds (exhaustive sub-space).",
+    "level_note": "Non-integral values strictly between T_max and T_max+1 (or T_min-1 and T_min) may give the truncated limit or 0 (don't-care zone, counted). String conversion is judged relative to the library's own as<double>() of the same string (whose accuracy is C12's subject).",
+    "quick": {"cases": 1500000, "sweep": True, "params": {"stride": 1021}, "floor_evaluations": 5000000, "floor_nontrivial": 1000000},
+    "thorough": {"cases": 30000000, "sweep": True, "params": {"all32": 1}, "exhaustive_claim": True,
+                 "exhaustive_note": "all 2^32 values of each 32-bit storage kind (int32, uint32, float) x 13 target types", "floor_evaluations": 12000000000},
+    "regress": ["linked_string_as_double", "long_numeric_string"],
+}
